@@ -2166,3 +2166,7 @@ mod test {
         }
     }
 }
+
+#[cfg(kani)]
+#[path = "/verif/kani/aranya-runtime/transaction.rs"]
+mod verif_kani;
